@@ -135,8 +135,14 @@ func (gn *graphNode) compileIfNeeded(ctx context.Context) (*composableRunnable, 
 		return nil, errors.New("no graph or component provided")
 	}
 
-	r.meta = gn.executorMeta
-	r.nodeInfo = gn.nodeInfo
+	// a component's runnable is shared by every compilation of this node: written once, so that compiling again
+	// does not write under a run of an earlier compilation
+	if r.meta != gn.executorMeta {
+		r.meta = gn.executorMeta
+	}
+	if r.nodeInfo != gn.nodeInfo {
+		r.nodeInfo = gn.nodeInfo
+	}
 
 	if gn.nodeInfo.outputKey != "" {
 		r = outputKeyedComposableRunnable(gn.nodeInfo.outputKey, r)
